@@ -751,10 +751,26 @@ class SInt:
     def __bool__(self):
         return Ctx.cur.branch(self.e != 0)
 
+    def _placeholder(self):
+        """Native formatting ('%d' % n) inside the functions a harness names
+        in ctx.env['format_placeholder_in'] yields a fixed placeholder number
+        instead of pinning the symbolic value (the text is then checked on
+        the concrete replays only; everything else stays symbolic)."""
+        names = Ctx.cur.env.get('format_placeholder_in')
+        if names:
+            f = sys._getframe(2)
+            if f.f_code.co_name in names:
+                return True
+        return False
+
     def __index__(self):
+        if self._placeholder():
+            return 424242
         return concretize(self)
 
     def __int__(self):
+        if self._placeholder():
+            return 424242
         return concretize(self)
 
     def __float__(self):
